@@ -50,6 +50,20 @@ def cases(tier, seed):
                     out.append({"kind": "rank", "cls": f"rank:{'zero' if r == 0 else 'full' if r == min(m, n) else 'deficient'}",
                                 "m": m, "n": n, "r": r, "idx": idx, "seed": seed, "extreme_aspect": True})
                     idx += 1
+    # size ladder (sizes above 8 / 16 / 32, multiples of 16 and their neighbours)
+    lad = [9, 15, 16, 17, 24, 32, 33] if tier == "quick" else list(range(9, 36)) + [47, 48, 49, 64, 65]
+    for n_ in lad:
+        for j in range(2 if tier == "quick" else 6):
+            out.append({"kind": "det", "cls": "det", "idx": idx, "seed": seed, "maxd": maxd, "n": n_})
+            idx += 1
+            out.append({"kind": "moore", "cls": "moore", "idx": idx, "seed": seed, "maxd": maxd, "n": n_})
+            idx += 1
+    for (m_, n_) in ([(17, 17), (20, 33), (33, 20), (16, 16), (26, 9)] if tier == "quick" else
+                     [(a, b) for a in (9, 16, 17, 26, 33, 40, 64) for b in (9, 16, 17, 33, 48)]):
+        for r in sorted({0, 1, min(m_, n_) // 2, min(m_, n_) - 1, min(m_, n_)}):
+            out.append({"kind": "rank", "cls": f"rank:{'zero' if r == 0 else 'full' if r == min(m_, n_) else 'deficient'}",
+                        "m": m_, "n": n_, "r": r, "idx": idx, "seed": seed})
+            idx += 1
     for k in range(40 if tier == "quick" else 400):
         out.append({"kind": "intrank", "cls": "rank:integer_exact", "idx": idx, "seed": seed, "maxd": maxd})
         idx += 1
@@ -226,6 +240,9 @@ def _det(spec, ctx, R):
     U = R.utils
     rng = gen.rng_for(spec["seed"], "c11det", spec["idx"])
     n = int(rng.integers(1, spec["maxd"] + 1))
+    if "n" in spec:
+        n = spec["n"]
+        ctx.hit("size:ladder")
     k = spec["idx"] % 6
     name = ["Dieudonné", "Dieudonne"][spec["idx"] % 2]
     if k in (0, 1, 2):
@@ -286,6 +303,7 @@ def _moore(spec, ctx, R):
     U = R.utils
     rng = gen.rng_for(spec["seed"], "c11moore", spec["idx"])
     n = int(rng.integers(1, spec["maxd"] + 1))
+    n = spec.get("n", n)
     k = spec["idx"] % 4
     if k == 0:
         e = 0.5 + rng.random(n) * 3.0
